@@ -159,7 +159,20 @@ theorem keygen_convert_exits {ζ ι ρ τ : Type} (PI : Bytes → τ → Go.M (L
       ∃ k, k < 4 ∧ keygen_convert PI isX Rc F inp out t0 = .error (.panic (1000 + k)) :=
   GoTie.keygen_convert_exits PI isX Rc F inp out t0 hPI hRc hF
 
-/-- `generate` returns only if the key pair was generated and the ONE write of the key file reported success -/
+/-- `generate`, as it stands in the source, IS this sequence (`GoTie.generateModel`): generate the key pair (exit site 0
+    if that fails); look whether standard output is a terminal and, if it is not, print the public key to standard
+    error (the result of that write is not looked at); take the time, format it, derive the recipient from THE
+    generated key, and write the key file in ONE `Fprintf` to `out` with that timestamp, that recipient and that key,
+    in the state those steps left (exit site 1 if that write reports an error) — for every behaviour of the callees -/
+theorem keygen_generate_tie {ζ θ ι ρ τ : Type} (G : τ → Go.M (ι × Option Go.Err × τ)) (Fd : ζ → τ → Go.M (Int × τ))
+    (IsT : Int → τ → Go.M (Bool × τ)) (stderr : ζ) (Rc : ι → τ → Go.M (ρ × τ))
+    (F1 : ζ → Bytes → ρ → τ → Go.M (Int × Option Go.Err × τ)) (Fmt : θ → Bytes → τ → Go.M (Bytes × τ))
+    (Now : τ → Go.M (θ × τ)) (F2 : ζ → Bytes → Bytes → ρ → ι → τ → Go.M (Int × Option Go.Err × τ)) (out : ζ) (t0 : τ) :
+    keygen_generate G Fd IsT stderr Rc F1 Fmt Now F2 out t0 = GoTie.generateModel G Fd IsT stderr Rc F1 Fmt Now F2 out t0 :=
+  GoTie.keygen_generate_tie G Fd IsT stderr Rc F1 Fmt Now F2 out t0
+
+/-- a corollary (weaker than the equation above: its timestamp, recipient and state are existential): `generate` returns
+    only if the key pair was generated and a write of the key file with that key reported success -/
 theorem keygen_generate_returns {ζ θ ι ρ τ : Type} (G : τ → Go.M (ι × Option Go.Err × τ)) (Fd : ζ → τ → Go.M (Int × τ))
     (IsT : Int → τ → Go.M (Bool × τ)) (stderr : ζ) (Rc : ι → τ → Go.M (ρ × τ))
     (F1 : ζ → Bytes → ρ → τ → Go.M (Int × Option Go.Err × τ)) (Fmt : θ → Bytes → τ → Go.M (Bytes × τ))
@@ -176,14 +189,25 @@ otherwise tied to the tools by the correspondence only. Here the TRANSLATED writ
 to be that model's: the outside state is read as the model's process state `Cli.Proc`, a write of
 the source as the model's write to the model's destination. -/
 
-/-- `decrypt`: returns exactly when `execute` reaches `finish`, with the model's final state; ends the process exactly
-    where the model exits 1 (a failed first write, a failed copy, a payload damaged after `n` bytes) -/
+/-- `decrypt`, outcome by outcome. `r1` is the first, empty write (the one that makes the lazy opener create the file), `r2`
+    the copy of the bytes the payload releases, from the state `r1` leaves. The translated function returns only if both
+    writes succeeded and the payload was whole, with exactly the state `r2.1`, and `execute` is `finish` of it. Otherwise
+    the fault is one of two exit sites and nothing else: site 2 (after `out.Write(nil)`) exactly when the empty write
+    failed — `execute` is then the state that write left, status 1; site 3 (after `io.Copy`) when the empty write
+    succeeded and the copy failed or the payload is damaged after `n` bytes — `execute` is then the state after the copy
+    (the released prefix, as far as the destination took it), status 1. -/
 theorem cli_decrypt_refines {ι : Type} (eW : Go.Err) (dest : Cli.Dest) (pt : Bytes) (fa : Option Nat) (ids : List ι) (inp : Bytes)
     (w : Cli.World) (hm : GoTie.mangled inp = false) (ha : GoTie.armored inp = false) :
+    let data : Bytes := match fa with | none => pt | some n => pt.take n
+    let r1 := ({ w := w } : Cli.Proc).write dest []
+    let r2 := r1.1.writeNE dest data
     match main_decrypt (fun b => pure b) (fun _ (_ : List ι) => .ok (pt, none)) (GoTie.mWrite eW dest)
-        (GoTie.mCopy eW dest (match fa with | none => pt | some n => pt.take n) fa.isSome) ids inp ({ w := w } : Cli.Proc) with
-    | .ok p' => Cli.execute dest (.dec (.ok pt fa)) w = p'.finish dest
-    | .error _ => (Cli.execute dest (.dec (.ok pt fa)) w).exit = 1 :=
+        (GoTie.mCopy eW dest data fa.isSome) ids inp ({ w := w } : Cli.Proc) with
+    | .ok p' => p' = r2.1 ∧ r1.2 = true ∧ r2.2 = true ∧ fa = none ∧ Cli.execute dest (.dec (.ok pt fa)) w = p'.finish dest
+    | .error f =>
+      (f = .panic 1002 ∧ r1.2 = false ∧ Cli.execute dest (.dec (.ok pt fa)) w = r1.1.result 1) ∨
+      (f = .panic 1003 ∧ r1.2 = true ∧ (r2.2 = false ∨ fa.isSome = true) ∧
+        Cli.execute dest (.dec (.ok pt fa)) w = r2.1.result 1) :=
   GoTie.cli_decrypt_refines eW dest pt fa ids inp w hm ha
 
 theorem cli_decrypt_refused_refines {ι : Type} (dest : Cli.Dest) (e : Go.Err) (ids : List ι) (inp : Bytes) (w : Cli.World)
@@ -221,20 +245,42 @@ the model (standard output, the buffer used when it is a terminal, the lazily op
 segment by segment leaves the process observably where the single write leaves it, with the same
 success (`writeSegs_flatten`). With the four steps of the translated `encrypt` read as segment
 writers, it returns exactly when `Cli.execute` reaches `finish`, observably in the model's final
-state, and ends the process exactly when the model exits 1 (`cli_encrypt_refines`). -/
+state, and otherwise ends the process at the exit site of the first step whose write failed, the
+model's result being observably the state that step stopped in, with status 1
+(`cli_encrypt_refines`). -/
 
 theorem writeSegs_flatten (dest : Cli.Dest) (segs : List Bytes) (p : Cli.Proc) (h : GoTie.SegInv p) :
     GoTie.ObsEq (GoTie.writeSegs dest p segs).1 (p.writeNE dest segs.flatten).1 ∧
       (GoTie.writeSegs dest p segs).2 = (p.writeNE dest segs.flatten).2 :=
   GoTie.writeSegs_flatten dest segs p h
 
+/-- `encrypt`, outcome by outcome. `r1 … r4` are the segment writers of the four writing steps, each from the state the one
+    before left: `age.Encrypt` (`s1`), `io.Copy` (`s2`), the stream writer's `Close` (`s3`), the armor writer's `Close`
+    (`s4`, reached only with `-a`). The translated function returns only if every step that is run succeeded, with exactly
+    the state the last of them left, and `execute` is observably `finish` of it. Otherwise the fault is one of the four
+    exit sites and nothing else, and the site names the step: 0 — `s1` could not be written; 1 — `s1` was, `s2` could
+    not; 2 — `s1`, `s2` were, `s3` could not; 3 (only with `-a`) — `s1`, `s2`, `s3` were, `s4` could not; `execute` is
+    then observably the state in which that segment writer stopped, with status 1. (`armor.NewWriter` writes nothing and
+    reports no error in the source; its model `mNW` cannot fail.) -/
 theorem cli_encrypt_refines {ρ : Type} (eW : Go.Err) (dest : Cli.Dest) (s1 s2 s3 s4 : List Bytes) (recs : List ρ) (inp : Bytes)
     (armor : Bool) (w : Cli.World) :
     let ct := (s1 ++ s2 ++ s3 ++ (if armor then s4 else [])).flatten
+    let r1 := GoTie.writeSegs dest ({ w := w } : Cli.Proc) s1
+    let r2 := GoTie.writeSegs dest r1.1 s2
+    let r3 := GoTie.writeSegs dest r2.1 s3
+    let r4 := GoTie.writeSegs dest r3.1 s4
     match main_encrypt (0 : Nat) GoTie.mNW (GoTie.mEnc eW dest s1) (GoTie.mCp eW dest s2) (GoTie.mCl eW dest s3 s4) recs inp 0 armor
         ({ w := w } : Cli.Proc) with
-    | .ok p' => GoTie.ResObsEq (Cli.execute dest (.enc ct) w) (p'.finish dest)
-    | .error _ => (Cli.execute dest (.enc ct) w).exit = 1 :=
+    | .ok p' =>
+      r1.2 = true ∧ r2.2 = true ∧ r3.2 = true ∧ (armor = true → r4.2 = true) ∧ p' = (if armor then r4.1 else r3.1) ∧
+        GoTie.ResObsEq (Cli.execute dest (.enc ct) w) (p'.finish dest)
+    | .error f =>
+      (f = .panic 1000 ∧ r1.2 = false ∧ GoTie.ResObsEq (Cli.execute dest (.enc ct) w) (r1.1.result 1)) ∨
+      (f = .panic 1001 ∧ r1.2 = true ∧ r2.2 = false ∧ GoTie.ResObsEq (Cli.execute dest (.enc ct) w) (r2.1.result 1)) ∨
+      (f = .panic 1002 ∧ r1.2 = true ∧ r2.2 = true ∧ r3.2 = false ∧
+        GoTie.ResObsEq (Cli.execute dest (.enc ct) w) (r3.1.result 1)) ∨
+      (f = .panic 1003 ∧ armor = true ∧ r1.2 = true ∧ r2.2 = true ∧ r3.2 = true ∧ r4.2 = false ∧
+        GoTie.ResObsEq (Cli.execute dest (.enc ct) w) (r4.1.result 1)) :=
   GoTie.cli_encrypt_refines eW dest s1 s2 s3 s4 recs inp armor w
 
 /-! ### `main` of cmd/age, from the flag-conflict switch to its end
